@@ -68,10 +68,28 @@ func scenario(spec *bk.Spec, seq []int, bound int) *sched.Config {
 			// the gates are process-global: slots leaked by earlier executions stay taken
 			gate0 := gateOccupancy()
 			injecting := false
+			recovering := false
 			nfaults := 0
 			var faultLog []string
 			fault := func(label string) error {
-				if injecting && x.Choose("fault@"+label, 2) == 1 {
+				if !injecting {
+					return nil
+				}
+				if recovering && strings.HasSuffix(label, "fetch") {
+					// during a start-up scan a lower store may also transiently not find a blob it listed
+					switch x.Choose("fault@"+label, 3) {
+					case 1:
+						nfaults++
+						faultLog = append(faultLog, label)
+						return hs.ErrInjected
+					case 2:
+						nfaults++
+						faultLog = append(faultLog, label+":not-exist")
+						return os.ErrNotExist
+					}
+					return nil
+				}
+				if x.Choose("fault@"+label, 2) == 1 {
 					nfaults++
 					faultLog = append(faultLog, label)
 					return hs.ErrInjected
@@ -194,6 +212,20 @@ func scenario(spec *bk.Spec, seq []int, bound int) *sched.Config {
 			}
 			if n := gateOccupancy() - gate0; n != 0 {
 				xfail("gate-slot-leaked", fmt.Sprintf("ops [%s], faults at %v: %d gate slots taken after the healthy continuation", seqName(seq), faultLog, n))
+			}
+			if spec.Recover != nil && strings.HasPrefix(spec.Name, "encrypt") {
+				// a restart that itself meets a transient fault: it may refuse to start, but if it
+				// comes up it must come up with the complete mapping (blobpacked is left out: the
+				// harness configures it with keepGoing, which accepts an incomplete start by design)
+				injecting, recovering = true, true
+				fsto, err := spec.Recover(env)
+				injecting, recovering = false, false
+				if err == nil {
+					if m := hs.Battery(fsto, ref, universe, hs.BatteryOpt{Light: true}); m != nil {
+						xfail("after-faulted-recovery|"+m.Kind, fmt.Sprintf("ops [%s], faults at %v: the restart met a fault, reported success, and serves a different content: %s", seqName(seq), faultLog, m.Detail))
+						return
+					}
+				}
 			}
 			if spec.Recover != nil {
 				rsto, err := spec.Recover(env)
